@@ -224,14 +224,23 @@ pub fn classify_dto(input: &[u8], reenc: &Result<Vec<u8>, String>) -> String {
     format!("abi-dto:{}", diff_tree(&vin, &vout))
 }
 
+fn per_type(sig: String, name: &str) -> String {
+    match sig.strip_prefix("abi-dto:") {
+        Some(rest) => format!("{name}:{rest}"),
+        None => sig,
+    }
+}
+
 /// Classify for any codec of the table.
 pub fn classify(group: &str, name: &str, input: &[u8], reenc: &Result<Vec<u8>, String>) -> String {
     match group {
         "abi-cbor" | "edict-cbor" => classify_cbor(group, input, reenc),
-        "abi-dto" => classify_dto(input, reenc),
+        // the DTO type is part of the signature: serde strictness is a per-type attribute
+        // (`deny_unknown_fields`, `default`), so a known leniency of one type must not hide a new one
+        "abi-dto" => per_type(classify_dto(input, reenc), name),
         "intent-envelope" if name.starts_with("control-intent") && input.len() >= 12 => {
             let inner = reenc.as_ref().map(|r| r.get(12..).unwrap_or(&[]).to_vec()).map_err(Clone::clone);
-            classify_dto(&input[12..], &inner)
+            per_type(classify_dto(&input[12..], &inner), &format!("abi-dto:{name}"))
         }
         _ => {
             let Ok(re) = reenc else {
